@@ -117,7 +117,8 @@ ALen(t) ==
 
 AClear(t) ==
   /\ set' = [set EXCEPT ![t] = {}]
-  /\ last' \in R("clear", t, 0, 0, 0, {}, 0, "ok", 0, {<<>>}, {<<>>})
+  \* clear(), clear_no_drop() and reset_no_drop() all empty the table
+  /\ \E o \in {"clear", "clear_nd", "reset_nd"} : last' \in R(o, t, 0, 0, 0, {}, 0, "ok", 0, {<<>>}, {<<>>})
 
 (* reserve has no observable effect *)
 AReserve(t, n) ==
